@@ -1,5 +1,7 @@
 import NV.Model.Reply
 import NV.Gen.Bounds
+import NV.Model.CFG
+import NV.Gen.ProxyCFG
 namespace NV.C02
 open NV
 
@@ -328,5 +330,17 @@ accesses and guards are re-read from the source on every run). -/
 theorem gen_optdata_in_bounds :
     (NV.Gen.Bounds.optDataAccesses.all fun a => a.2.1 ≤ a.2.2) = true ∧
     4 ≤ NV.Gen.Bounds.optDataAccesses.length := by decide
+
+
+/-- **C02 (cannot be wedged by leaking capacity)**: hostile messages are handled by the same
+handler closures as every other query; their regenerated control-flow graphs give the inflight
+unit back on EVERY path, including the ones a parse error takes (an early return before the
+deferred release is installed breaks this obligation, and `MaxInflightRequests` such messages
+would stop the daemon). Same certificate as `NV.C04.gen_cert_ok`, required here because
+"keeps answering other clients" depends on it. -/
+theorem hostile_paths_return_capacity :
+    (NV.Gen.ProxyCFG.all.all fun e => NV.CFG.check e.2.2.2.2 e.2.1 e.2.2.1 e.2.2.2.1) = true ∧
+    (NV.Gen.ProxyCFG.allWrites.all fun e => NV.CFG.check e.2.2.2.2 e.2.1 e.2.2.1 e.2.2.2.1) = true := by
+  decide
 
 end NV.C02
